@@ -2271,3 +2271,144 @@ func ruleR10_10(p *Program, r *Report) {
 		}
 	}
 }
+
+func init() {
+	extend("C02", Rule{ID: "R02.12", Configs: "all", Run: ruleR02_12},
+		"(R02.12) output window full in the middle of a packed table entry: where the Go decode loop parks the remaining symbols (writeOverflowLits/Len) it may go back into the symbol loop only when the last packed symbol is known not to be the end-of-block code (a dominating comparison with 256 taken inside that branch: != 256, > 256 or >= 257); for the end-of-block code it must leave with errOutputOverflow, otherwise the next block's first literal overwrites the parked bytes.")
+	extend("C04", Rule{ID: "R04.10", Configs: "all", Run: ruleR02_12}, "(R04.10) = R02.12.")
+}
+
+func ruleR02_12(p *Program, r *Report) {
+	id := "R02.12"
+	if r.Prop == "C04" {
+		id = "R04.10"
+	}
+	r.Expect(id, 1)
+	fn := p.Func(flateRel, "decodeHuffmanLargeLoop")
+	if fn == nil {
+		r.Undecided(id, "anchors", "-", "decodeHuffmanLargeLoop exists", "not found")
+		return
+	}
+	// the parking store: writeOverflowLen = <non-constant>
+	var park *ssa.Store
+	for _, b := range fn.Blocks {
+		for _, in := range b.Instrs {
+			if st, ok := in.(*ssa.Store); ok {
+				if _, sel := accessPath(st.Addr); strings.HasSuffix(sel, ".writeOverflowLen") {
+					if _, isK := constInt(st.Val); !isK {
+						if bo, isB := st.Val.(*ssa.BinOp); isB && (bo.Op == token.SUB || bo.Op == token.ADD) {
+							continue // the -= 1 adjustments
+						}
+						park = st
+					}
+				}
+			}
+		}
+	}
+	if park == nil {
+		r.Undecided(id, shortFn(fn)+"|park", p.Pos(fn.Pos()), "the loop parks symbols of a packed entry when the window is full", "store of writeOverflowLen not found")
+		return
+	}
+	pb := park.Block()
+	inRegion := func(b *ssa.BasicBlock) bool { return pb.Dominates(b) }
+	// does decoding resume from block t (an output store or a table lookup reachable before any return)?
+	resumes := func(t *ssa.BasicBlock) bool {
+		found, _, _ := PathQuery{Target: func(x ssa.Instruction) bool {
+			if st, ok := x.(*ssa.Store); ok {
+				if ia, ok := st.Addr.(*ssa.IndexAddr); ok {
+					if prm, ok := ia.X.(*ssa.Parameter); ok && prm.Name() == "output" {
+						return true
+					}
+				}
+			}
+			if u, ok := x.(*ssa.UnOp); ok && u.Op == token.MUL {
+				if ia, ok := u.X.(*ssa.IndexAddr); ok {
+					if _, sel := accessPath(ia.X); strings.Contains(sel, "CodeLookup") {
+						return true
+					}
+				}
+			}
+			return false
+		}, Barrier: func(x ssa.Instruction) bool { _, ok := x.(*ssa.Return); return ok }}.findFromBlock(fn, t)
+		return found
+	}
+	lab := newLabeler()
+	n := 0
+	for _, b := range fn.Blocks {
+		if !inRegion(b) {
+			continue
+		}
+		for _, succ := range b.Succs {
+			if inRegion(succ) || !resumes(succ) {
+				continue
+			}
+			n++
+			key := shortFn(fn) + "|" + lab.get("resume after parking")
+			last := b.Instrs[len(b.Instrs)-1]
+			ok := false
+			facts := dominatingFacts(last)
+			if br, okc := edgeCond(b, succ); okc {
+				if f, okf := branchFact(br); okf {
+					facts = append(facts, f)
+				}
+			}
+			for _, f := range facts {
+				if f.Y == nil {
+					continue
+				}
+				k, isK := constInt(f.Y)
+				x := f.X
+				op := f.Op
+				if !isK {
+					if k2, isK2 := constInt(f.X); isK2 {
+						k, x = k2, f.Y
+						switch op {
+						case token.LSS:
+							op = token.GTR
+						case token.LEQ:
+							op = token.GEQ
+						case token.GTR:
+							op = token.LSS
+						case token.GEQ:
+							op = token.LEQ
+						}
+					} else {
+						continue
+					}
+				}
+				// the comparison must have been made inside the parking branch
+				if in, isI := x.(ssa.Instruction); !isI || !inRegion(in.Block()) {
+					if cmpBlk := factBlock(fn, f); cmpBlk == nil || !inRegion(cmpBlk) {
+						continue
+					}
+				}
+				if (op == token.NEQ && k == 256) || (op == token.GTR && k >= 256) || (op == token.GEQ && k >= 257) {
+					ok = true
+				}
+			}
+			r.Check(ok, id, key, p.InstrPos(last), "after parking symbols the loop resumes only when the pending last symbol is not the end-of-block code", "decoding resumes from the parking branch without the pending symbol having been compared with 256: an end-of-block code would be handled by the ordinary arm, which returns no overflow, and the parked literals are overwritten by the next block")
+		}
+	}
+	if n == 0 {
+		r.OK(id, shortFn(fn)+"|no resume", p.InstrPos(park), "the parking branch always leaves with an error: decoding never resumes from it")
+	}
+}
+
+// factBlock: the block whose If produced fact f (matched by operands), or nil.
+func factBlock(fn *ssa.Function, f Fact) *ssa.BasicBlock {
+	for _, b := range fn.Blocks {
+		if len(b.Instrs) == 0 {
+			continue
+		}
+		iff, ok := b.Instrs[len(b.Instrs)-1].(*ssa.If)
+		if !ok {
+			continue
+		}
+		if bo, ok := normCond(Branch{Cond: iff.Cond, True: true}).Cond.(*ssa.BinOp); ok {
+			if (bo.X == f.X && bo.Y == f.Y) || (bo.X == f.Y && bo.Y == f.X) {
+				return b
+			}
+		}
+	}
+	return nil
+}
